@@ -1,1 +1,41 @@
-Require Import Gengo.Base.Str Gengo.Model.Universe.
+(* C11 — the universe does not depend on how loading was split or ordered (partial: proved here
+   are the history clauses -- splitting a load is the same as loading in sequence, every load on
+   every world only extends it, objects obtained before stay the ones later lookups return, and
+   re-walking what is already there is a no-op; invariance of the final dump under PERMUTATION of
+   the requests is decided by the correspondence run over permutations and partitions, not by a
+   theorem) *)
+Require Import Gengo.Base.Str Gengo.Model.Universe Gengo.Proofs.UniverseProofs.
+
+Theorem C11_split_is_sequence : forall v2 p fuel gs1 gs2 w,
+  fold_left (add_package v2 p fuel) (gs1 ++ gs2) w =
+  fold_left (add_package v2 p fuel) gs2 (fold_left (add_package v2 p fuel) gs1 w).
+Proof. exact load_split. Qed.
+Print Assumptions C11_split_is_sequence.
+
+Theorem C11_load_extends_partial : forall v2 p fuel gs w w',
+  fold_left (add_package v2 p fuel) gs (Some w) = Some w' -> ext (w_u w) (w_u w').
+Proof. exact load_history_ext. Qed.
+Print Assumptions C11_load_extends_partial.
+
+Theorem C11_objects_stay_valid : forall v2 p fuel u k gs pk w',
+  let '(u1, o) := get_or_create v2 u k in
+  fold_left (add_package v2 p fuel) gs (Some {| w_u := u1; w_pkgs := pk |}) = Some w' ->
+  get_or_create v2 (w_u w') k = (w_u w', o).
+Proof. exact lookup_stable_across_loads. Qed.
+Print Assumptions C11_objects_stay_valid.
+
+Theorem C11_rewalk_noop : forall v2 p f u use t tstr sh o,
+  plookup t p = Some (tstr, sh) -> no_tparams sh = true ->
+  nlookup (key_of v2 use tstr sh) (tkeys u) = Some o -> complete u o = true ->
+  walk v2 p (S f) u use t = Some (u, o).
+Proof. exact walk_noop. Qed.
+Print Assumptions C11_rewalk_noop.
+
+Definition ex_prog : prog :=
+  [(1, (s "p.T", SNamed 1 2 [] [] None)); (2, (s "struct{A int}", SStruct [(s "A", false, [], 3)])); (3, (s "int", SBasic (s "int")))]%N.
+Definition ex_pkg : gpkg := {| g_path := s "p"; g_name := s "p"; g_requested := true; g_imports := []; g_scope := [OType 1%N] |}.
+Example C11_example :
+  match build false ex_prog 10 [ex_pkg], build false ex_prog 10 [ex_pkg; ex_pkg] with
+  | Some w1, Some w2 => w_u w1 = w_u w2 /\ kind_of (w_u w1) (s "p", s "T") = s "Struct"
+  | _, _ => False end.
+Proof. vm_compute. split; reflexivity. Qed.
